@@ -88,7 +88,11 @@ def run(ctx):
         try:
             data = gen.build_data(dspec)
             prior = gen.build_prior(ps)
-            samples = gen.build_samples(rows, units={"s": du})
+            samples = gen.build_samples(rows, units={"s": du}, ln_prior=bool(rng.random() < 0.3))
+            if rng.random() < 0.3:
+                # a full posterior-like table (linear columns present): only P, e, omega, M0, s may be used
+                samples["K"] = rng.normal(size=nrows) * gen.U(du)
+                samples["v0"] = rng.normal(size=nrows) * gen.U(du)
             # rows exactly as the kernel sees them (internal units => no conversion)
             s_seen = samples["s"].to_value(gen.U(du))
             joker = TheJoker(prior, rng=np.random.default_rng(1))
